@@ -9,7 +9,7 @@ EXTENDS GlomErrors
 
 CONSTANTS MinDepth, MaxDepth,   \* number of enclosing constructs
           Rich,                 \* TRUE: full construct pool at every level; FALSE: core pool above depth 1
-          KwFull                \* TRUE: every default x skip_exc x glom_debug combination
+          KwMode                \* "full": every default x skip_exc x glom_debug combination; "mid"; "small"
 
 \* ---- exception catalogue (abstract attributes <-> concrete harness classes, harness/c04.py)
 UserClasses == {
@@ -63,12 +63,12 @@ Pool(n) == IF Rich \/ n <= 1 THEN RichPool ELSE CorePool
 
 Defaults == {"absent", "obj", "none"}
 Skips == {"absent", "exact", "other", "tuple", "tuple_non", "glomerror", "exception", "keyerror", "base"}
-Kws == IF KwFull
-       THEN {[default |-> d, skip |-> s, debug |-> g] : d \in Defaults, s \in Skips, g \in BOOLEAN}
-       ELSE {[default |-> "absent", skip |-> "absent", debug |-> FALSE],
-             [default |-> "obj", skip |-> "absent", debug |-> FALSE],
-             [default |-> "absent", skip |-> "exact", debug |-> TRUE],
-             [default |-> "none", skip |-> "glomerror", debug |-> FALSE]}
+Kw(d, s, g) == [default |-> d, skip |-> s, debug |-> g]
+Kws == CASE KwMode = "full" -> {Kw(d, s, g) : d \in Defaults, s \in Skips, g \in BOOLEAN}
+         [] KwMode = "mid"  -> {Kw(d, s, FALSE) : d \in Defaults, s \in {"absent", "exact", "other", "glomerror"}}
+                               \cup {Kw("absent", "absent", TRUE), Kw("obj", "exact", TRUE), Kw("none", "keyerror", FALSE)}
+         [] OTHER           -> {Kw("absent", "absent", FALSE), Kw("obj", "absent", FALSE),
+                                Kw("absent", "exact", TRUE), Kw("none", "glomerror", FALSE)}
 
 \* what the laws say about the mechanism's outcome, and the outcome of the mechanism with the
 \* candidate repairs (both only for the replay harness; the machine itself is GlomErrors)
